@@ -123,6 +123,8 @@ class Ctx:
         self.assumptions: list[str] = []
         self.trusted: list[str] = []
         self.thorough = tier == "thorough"
+        # proof obligations a check discharges itself (e.g. C03's generated-kernel equalities)
+        self.extra_audit = {"obligations": 0, "discharged": 0, "axioms": {}}
 
     def scale(self, quick: int, thorough: int) -> int:
         return thorough if self.thorough else quick
@@ -172,6 +174,13 @@ def main(argv=None) -> int:
         ctx.issue("audit", "forbidden-token", f)
 
     mod = importlib.import_module(f"artv.checks.{prop}")
+    if build_ok and hasattr(mod, "prepare") and not a.replay:
+        try:
+            mod.prepare(ctx)
+        except Exception as e:
+            traceback.print_exc()
+            print(f"[{prop}] INTERNAL ERROR in check machinery (prepare): {e!r}")
+            return 2
     if a.replay:
         rc = mod.replay(ctx, json.loads(Path(a.replay).read_text())) if hasattr(mod, "replay") else 0
     elif build_ok:
@@ -219,7 +228,8 @@ def main(argv=None) -> int:
         rc = 1
     wall = time.time() - t0
     # ---------------- evidence
-    ob, di = aud["obligations"], aud["discharged"]
+    ob, di = aud["obligations"] + ctx.extra_audit["obligations"], aud["discharged"] + ctx.extra_audit["discharged"]
+    aud["axioms"] = dict(aud["axioms"], **ctx.extra_audit["axioms"])
     ev = {
         "property_id": prop, "tier": a.tier, "seed": a.seed, "level": "proof",
         "coverage": {
